@@ -1040,3 +1040,272 @@ T("C17", "header checks with == and else", "ir.py",
             pass
         else:
             raise ValueError("File missing GTIRB magic - not a GTIRB file?")""")
+
+# ---------------------------------------------------------------------------
+# C14
+F("C14", "data setter keeps the raw bytes", "auxdata.py",
+  """        self._data = value
+        self._lazy_container = None""", """        self._data = value""", "R14.1")
+F("C14", "raw reuse without the type-name comparison", "auxdata.py",
+  """        if self._lazy_container is not None and (
+            self.type_name == self._lazy_container.type_name
+        ):""", """        if self._lazy_container is not None:""", "R14.2")
+F("C14", "UnknownData built from the stream remainder", "serialization.py",
+  """        try:
+            return self._decode_tree(
+                io.BytesIO(all_bytes), parse_tree, get_by_uuid
+            )
+        except UnknownCodecError:
+            # we found an unknwon codec; the entire data structure can't be
+            # parsed; return a blob of bytes
+            return UnknownData(all_bytes)""",
+  """        stream = io.BytesIO(all_bytes)
+        try:
+            return self._decode_tree(stream, parse_tree, get_by_uuid)
+        except UnknownCodecError:
+            return UnknownData(stream.read())""", "R14.4")
+F("C14", "mapping codec returns a partial dict on unknown nested codec", "serialization.py",
+  """        for _ in range(mapping_len):
+            key = serialization._decode_tree(raw_bytes, key_type, get_by_uuid)
+            val = serialization._decode_tree(raw_bytes, val_type, get_by_uuid)
+            mapping[key] = val
+        return mapping""", """        try:
+            for _ in range(mapping_len):
+                key = serialization._decode_tree(raw_bytes, key_type, get_by_uuid)
+                val = serialization._decode_tree(raw_bytes, val_type, get_by_uuid)
+                mapping[key] = val
+        except UnknownCodecError:
+            pass
+        return mapping""", "R14.4")
+F("C14", "saved type name taken from the container", "auxdata.py",
+  """        proto_auxdata.type_name = self.type_name""",
+  """        proto_auxdata.type_name = (
+            self._lazy_container.type_name
+            if self._lazy_container is not None
+            else self.type_name
+        )""", "R14.2")
+F("C14", "getter keeps the container after decoding", "auxdata.py",
+  """            self._data = self._lazy_container.get_data()
+            self._lazy_container = None""", """            self._data = self._lazy_container.get_data()""", "R14.1")
+F("C14", "re-encoding uses the private value", "auxdata.py",
+  """            AuxData.serializer.encode(data_stream, self.data, self.type_name)""",
+  """            AuxData.serializer.encode(data_stream, self._data, self.type_name)""", "R14.2")
+F("C14", "loading decodes eagerly", "auxdata.py",
+  """        return cls(
+            data=None,
+            type_name=aux_data.type_name,
+            lazy_container=lazy_container,
+        )""", """        return cls(
+            data=lazy_container.get_data(),
+            type_name=aux_data.type_name,
+            lazy_container=None,
+        )""", "R14.3")
+F("C14", "UnknownData re-encoded through the type parser", "serialization.py",
+  """        if isinstance(val, UnknownData):
+            # it was a blob of bytes because of a decoding problem;
+            # just write the whole thing out
+            out.write(val)
+            return
+        parse_tree = Serialization._parse_type(type_name)""",
+  """        parse_tree = Serialization._parse_type(type_name)
+        if isinstance(val, UnknownData):
+            out.write(val)
+            return""", "R14.4")
+F("C14", "a helper resets the container from outside", "module.py",
+  """    def symbols_named(self, name: str)""", """    def _refresh_aux(self) -> None:
+        for a in self.aux_data.values():
+            a._lazy_container = None
+
+    def symbols_named(self, name: str)""", "R14.1")
+T("C14", "get_data does not release raw_data", "auxdata.py",
+  """        self.raw_data = None
+        return rv""", """        return rv""")
+T("C14", "guards nested instead of and", "auxdata.py",
+  """        if self._lazy_container is not None and (
+            self.type_name == self._lazy_container.type_name
+        ):
+            proto_auxdata.data = self._lazy_container.get_raw_data()
+        else:
+            data_stream = BytesIO()
+            AuxData.serializer.encode(data_stream, self.data, self.type_name)
+            proto_auxdata.data = data_stream.getvalue()""",
+  """        reuse = False
+        if self._lazy_container is not None:
+            if self.type_name == self._lazy_container.type_name:
+                proto_auxdata.data = self._lazy_container.get_raw_data()
+                return proto_auxdata
+        data_stream = BytesIO()
+        AuxData.serializer.encode(data_stream, self.data, self.type_name)
+        proto_auxdata.data = data_stream.getvalue()""")
+
+# ---------------------------------------------------------------------------
+# C15
+F("C15", "regex drops characters outside \\w", "serialization.py",
+  """findall("[^<>,]+|<|>|,", type_name)""", """findall(r"\\w+|<|>|,", type_name)""", "R15.1")
+F("C15", "comma missing from the negated class", "serialization.py",
+  """findall("[^<>,]+|<|>|,", type_name)""", """findall("[^<>]+|<|>|,", type_name)""", "R15.1")
+F("C15", "ValueError for a leading delimiter", "serialization.py",
+  """            if first_token in {"<", ">", ","}:
+                raise TypeNameError(type_name)""", """            if first_token in {"<", ">", ","}:
+                raise ValueError(type_name)""", "R15.2")
+F("C15", "root destructuring without the handler", "serialization.py",
+  """        try:
+            (parse_tree,) = parse(tokens, [])[0]
+        except ValueError:
+            raise TypeNameError(type_name)
+        return parse_tree""", """        (parse_tree,) = parse(tokens, [])[0]
+        return parse_tree""", "R15.2")
+F("C15", "TypeNameError derives from ValueError", "serialization.py",
+  """class TypeNameError(EncodeError):""", """class TypeNameError(EncodeError, ValueError):""", "R15.2")
+F("C15", "empty token list destructured", "serialization.py",
+  """            if len(tokens) == 0:
+                raise TypeNameError(type_name)
+            first_token, *tail = tokens""", """            first_token, *tail = tokens""", "R15.3")
+F("C15", "capturing group in the tokeniser", "serialization.py",
+  """findall("[^<>,]+|<|>|,", type_name)""", """findall("([^<>,]+)|<|>|,", type_name)""", "R15.1")
+F("C15", "tokeniser strips whitespace", "serialization.py",
+  """findall("[^<>,]+|<|>|,", type_name)""", """findall("[^<>, ]+|<|>|,", type_name)""", "R15.1")
+F("C15", "unbalanced pop", "serialization.py",
+  """                    if len(stack) == 0:
+                        remaining_tokens.append(t)
+                        continue
+                    if t == "<":""", """                    if t == "<":""", "R15.3")
+T("C15", "regex as a raw string", "serialization.py",
+  """findall("[^<>,]+|<|>|,", type_name)""", """findall(r"[^<>,]+|[<>,]", type_name)""")
+
+# ---------------------------------------------------------------------------
+# C18
+F("C18", "revert the DataBlock.deep_eq fix", "block.py",
+  """    def deep_eq(self, other: object) -> bool:
+        # Do not move __eq__. See docstring for Node.deep_eq for more info.
+        if not isinstance(other, DataBlock):
+            return False
+        return super().deep_eq(other)
+""", "", "R18.2")
+F("C18", "rebase_delta dropped from the attribute tuple", "module.py",
+  """            "preferred_addr",
+            "rebase_delta",
+        ):""", """            "preferred_addr",
+        ):""", "R18.1")
+F("C18", "offset compared with size", "block.py",
+  """            self.offset == other.offset
+            and self.uuid == other.uuid""", """            self.offset == other.size
+            and self.uuid == other.uuid""", "R18.1")
+F("C18", "module length test removed", "ir.py",
+  """        if not len(self_modules) == len(other_modules):
+            return False
+""", "", "R18.3")
+F("C18", "one side sorted by name", "ir.py",
+  """        other_modules = sorted(other.modules, key=lambda m: m.uuid)""",
+  """        other_modules = sorted(other.modules, key=lambda m: m.name)""", "R18.3")
+F("C18", "Symbol.deep_eq ignores at_end", "symbol.py",
+  """            self.name == other.name
+            and self.at_end == other.at_end
+            and self.uuid == other.uuid""", """            self.name == other.name
+            and self.uuid == other.uuid""", "R18.1")
+F("C18", "interval block-count test removed", "byteinterval.py",
+  """            and len(self.blocks) == len(other.blocks)
+""", "", "R18.3")
+F("C18", "section compares intervals unsorted", "section.py",
+  """                    sorted(self.byte_intervals, key=lambda bi: bi.uuid),
+                    sorted(other.byte_intervals, key=lambda bi: bi.uuid),""",
+  """                    self.byte_intervals,
+                    other.byte_intervals,""", "R18.3")
+F("C18", "entry point compared without the None case of the other side", "module.py",
+  """        if self.entry_point is None:
+            if other.entry_point is not None:
+                return False
+        else:
+            if not self.entry_point.deep_eq(other.entry_point):
+                return False""", """        if self.entry_point is not None:
+            if not self.entry_point.deep_eq(other.entry_point):
+                return False""", "R18.4")
+F("C18", "CFG edge-count test removed", "cfg.py",
+  """        if self._nxg.number_of_edges() != other._nxg.number_of_edges():
+            return False
+""", "", "R18.3")
+F("C18", "IR.deep_eq ignores the version", "ir.py",
+  """        return self.version == other.version and self.cfg.deep_eq(other.cfg)""",
+  """        return self.cfg.deep_eq(other.cfg)""", "R18.1")
+F("C18", "SymAddrAddr.deep_eq ignores symbol2", "symbolicexpression.py",
+  """            and self.symbol1.deep_eq(other.symbol1)
+            and self.symbol2.deep_eq(other.symbol2)
+            and self.attributes == other.attributes
+        )
+
+    @property""", """            and self.symbol1.deep_eq(other.symbol1)
+            and self.attributes == other.attributes
+        )
+
+    @property""", "R18.1")
+F("C18", "ProxyBlock guard widened to CfgNode", "block.py",
+  """        if not isinstance(other, ProxyBlock):
+            return False
+        return self.uuid == other.uuid""", """        if not isinstance(other, CfgNode):
+            return False
+        return self.uuid == other.uuid""", "R18.2")
+T("C18", "length test written with !=", "ir.py",
+  """        if not len(self_modules) == len(other_modules):
+            return False""", """        if len(self_modules) != len(other_modules):
+            return False""")
+
+# ---------------------------------------------------------------------------
+# C19
+F("C19", "revert the size-truncation fix (setter no longer truncates)", "byteinterval.py",
+  """        self._size = value
+        if value < len(self.contents):
+            self.contents = self.contents[:value]""", """        self._size = value""", "R19.3")
+F("C19", "initialized_size cached in a field", "byteinterval.py",
+  """        return len(self.contents)
+
+    @initialized_size.setter""", """        return getattr(self, "_initialized_size", len(self.contents))
+
+    @initialized_size.setter""", "R19.1")
+F("C19", "constructor check after the assignments", "byteinterval.py",
+  """        if initialized_size > size:
+            raise ValueError("initialized_size must be <= size!")
+
+        super().__init__(uuid=uuid)
+        self._section: typing.Optional["Section"] = None""",
+  """        super().__init__(uuid=uuid)
+        self._section: typing.Optional["Section"] = None
+        if initialized_size > size:
+            raise ValueError("initialized_size must be <= size!")""", "R19.2")
+F("C19", "block contents slice ends at size", "block.py",
+  """            self.offset : self.offset + self.size""", """            self.offset : self.size""", "R19.4")
+F("C19", "contains_offset closed on the upper bound", "block.py",
+  """        return self.offset <= offset < (self.offset + self.size)""",
+  """        return self.offset <= offset <= (self.offset + self.size)""", "R19.4")
+F("C19", "block address ignores the offset", "block.py",
+  """        return self.byte_interval.address + self.offset""", """        return self.byte_interval.address""", "R19.4")
+F("C19", "initialized_size setter pads with spaces", "byteinterval.py",
+  """            self.contents += b"\\0" * (value - len(self.contents))""",
+  """            self.contents += b" " * (value - len(self.contents))""", "R19.1")
+F("C19", "initialized_size setter never truncates", "byteinterval.py",
+  """        elif value < len(self.contents):
+            self.contents = self.contents[:value]
+
+    @classmethod""", """
+
+    @classmethod""", "R19.1")
+F("C19", "size setter stores without notifying the section", "byteinterval.py",
+  """        self._size = value
+        if value < len(self.contents):""", """        self.__dict__["__size"] = value
+        if value < len(self.contents):""", "R19.3")
+F("C19", "contains_address forgets to rebase", "block.py",
+  """                return self.contains_offset(address - base)""", """                return self.contains_offset(address)""", "R19.4")
+F("C19", "constructor stores the caller's buffer", "byteinterval.py",
+  """        self.contents = bytearray(contents)""", """        self.contents = contents  # type: ignore""", "R19.2")
+T("C19", "size setter truncating through initialized_size", "byteinterval.py",
+  """        if value < len(self.contents):
+            self.contents = self.contents[:value]
+
+    @property
+    def initialized_size""", """        if value < len(self.contents):
+            self.initialized_size = value
+
+    @property
+    def initialized_size""")
+T("C19", "contains_offset as two comparisons", "block.py",
+  """        return self.offset <= offset < (self.offset + self.size)""",
+  """        return offset >= self.offset and offset < self.offset + self.size""")
